@@ -85,6 +85,14 @@ def run(ctx):
         'updated_cnt == 1', '1 == updated_cnt'),
         ctx.construct(cj, extra='returns CAS result'),
         'capture result is not "exactly one row updated"', ctx.loc(cj))
+    mem = [st for t, st in U.attr_stores(cj.node)
+           if t.attr == 'captured_at']
+    r1.check(all(U.guarded(cfg, cfg.stmt_node(st), 'updated_cnt == 1', True)
+                 for st in mem), ctx.construct(cj, extra='in-memory mark '
+                                               'only when captured'),
+             'the in-memory job is marked captured although the CAS was '
+             'lost (has_scheduled_jobs would report it as being processed)',
+             ctx.loc(cj))
     # assignment of updated_cnt from the CAS call
     r1.check(any(isinstance(x, ast.Assign) and x.value is c and
                  isinstance(x.targets[0], ast.Tuple) and
@@ -98,9 +106,8 @@ def run(ctx):
     uom = U.calls_in(cfg, 'update_on_match')
     ok = False
     for n, c in uom:
-        g = cfg.guards(n)
-        ok = any(isinstance(t, ast.expr) and norm(t) == 'query_filter' and
-                 pol for (t, pol, _g) in g)
+        ok = U.guarded(cfg, n, 'query_filter', True)
+    ok = ok and U.plain_update_only_without_filter(cfg)
     spec = [x for x in own_nodes(us.node) if isinstance(x, ast.Call) and
             U.call_name(x) == 'ScheduledJob' and
             any(k.arg is None and dotted(k.value) == 'query_filter'
@@ -132,10 +139,7 @@ def run(ctx):
     app = [(n, c) for n, c in U.calls_in(cfg, 'append')]
     okg = False
     for n, c in app:
-        for (t, pol, _g) in cfg.guards(n):
-            if isinstance(t, ast.expr) and pol and \
-                    norm(t) in ('updated_cnt == 1', '1 == updated_cnt'):
-                okg = True
+        okg = okg or U.guarded(cfg, n, 'updated_cnt == 1', True)
     r1.check(ok and okg, ctx.construct(lc, extra='legacy capture'),
              'legacy capture is not a CAS on processing=False whose result '
              'gates the call', ctx.loc(lc))
@@ -150,12 +154,7 @@ def run(ctx):
     if not inv or not dele:
         raise AnalysisError('C13.R2: _process_memory_job structure lost')
     for n, c in inv:
-        ok = False
-        for (t, pol, _g) in cfg.guards(n):
-            if isinstance(t, ast.expr) and \
-                    '_capture_scheduled_job' in norm(t):
-                neg = norm(t).startswith('not ')
-                ok = (neg and not pol) or (not neg and pol)
+        ok = U.guarded(cfg, n, 'self._capture_scheduled_job(__j)', True)
         r2.check(ok, ctx.construct(pm, c),
                  'the job is invoked without a successful capture',
                  ctx.loc(pm, c))
@@ -216,14 +215,7 @@ def run(ctx):
     if len(pops) < 2:
         raise AnalysisError('C13.R3: heappop/submit lost in _dispatcher')
     for n, c in pops:
-        ok = False
-        for (t, pol, _g) in cfg.guards(n):
-            if isinstance(t, ast.Compare) and not pol and \
-                    norm(t) in ('delay > 0', '0 < delay'):
-                ok = True
-            if isinstance(t, ast.Compare) and pol and \
-                    norm(t) in ('delay <= 0', '0 >= delay'):
-                ok = True
+        ok = U.guarded(cfg, n, 'delay > 0', False)
         r3.check(ok, ctx.construct(dp, c),
                  '%s is not dominated by "delay > 0 is false"'
                  % U.call_name(c), ctx.loc(dp, c))
@@ -261,7 +253,8 @@ def run(ctx):
     flt = [o for o in ops if o.name == 'filter' and o.always]
     t_ok = any(isinstance(o.call.args[0], ast.Compare) and
                isinstance(o.call.args[0].ops[0], (ast.Lt, ast.LtE)) and
-               'execute_at' in norm(o.call.args[0].left) and
+               U.phas(U.inline_locals(gs.node, o.call.args[0].left),
+                      '___.ScheduledJob.execute_at') and
                norm(o.call.args[0].comparators[0]).startswith('time - ')
                for o in flt if o.call.args)
     r3.check(t_ok, ctx.construct(gs, extra='execute_at < time - pickup'),
@@ -288,10 +281,14 @@ def run(ctx):
         if o.name == 'filter' and o.always and o.call.args and \
                 isinstance(o.call.args[0], ast.Call) and \
                 U.call_name(o.call.args[0]) == 'or_':
-            parts = [norm(a) for a in o.call.args[0].args]
-            ok = any('== sa.null()' in p or 'is_(None)' in p
-                     for p in parts) and any(
-                '<= min_captured_at' in p or '< min_captured_at' in p
+            parts = [U.inline_locals(gs.node, a)
+                     for a in o.call.args[0].args]
+            ok = len(parts) == 2 and any(
+                U.phas(p, '___.ScheduledJob.captured_at == sa.null()') or
+                U.phas(p, '___.ScheduledJob.captured_at.is_(None)')
+                for p in parts) and any(
+                U.phas(p, '___.ScheduledJob.captured_at <= min_captured_at')
+                or U.phas(p, '___.ScheduledJob.captured_at < min_captured_at')
                 for p in parts)
     r4.check(ok, ctx.construct(gs, extra='uncaptured OR timed out'),
              'poll does not select "captured_at IS NULL OR captured_at <= '
@@ -367,14 +364,12 @@ def run(ctx):
              isinstance(x.ast, ast.Continue)]
     key_ok = proc_ok = False
     for x in conts:
-        g = [norm(t) for (t, pol, _g) in cfg.guards(x)
-             if isinstance(t, ast.expr) and pol]
-        gt = [t for (t, pol, _g) in cfg.guards(x)
-              if isinstance(t, ast.expr) and pol]
-        if any(U.phas(t, "filters['key'] != __j.key") for t in gt):
+        if U.guarded(cfg, x, "filters['key'] == __j.key", False) and \
+                U.guarded(cfg, x, "'key' in filters", True):
             key_ok = True
-        if any(U.phas(t, "filters['processing'] is "
-                      "(__j.captured_at is None)") for t in gt):
+        if U.guarded(cfg, x, "filters['processing'] is "
+                     "(__j.captured_at is None)", True) and \
+                U.guarded(cfg, x, "'processing' in filters", True):
             proc_ok = True
     r7.check(ok and key_ok, ctx.construct(hs, extra='key filter'),
              'in-memory jobs with another key are not skipped', ctx.loc(hs))
